@@ -20,9 +20,9 @@ Definition gstep (phi r z : R) : R := atan2 (z + ag * Cg phi * e2g * sin phi) r.
 
 (* ---- tie to the regenerated step map ---- *)
 Lemma gen_step_is x y z phi : gen_geodetic_step phi x y z = gstep phi (sqrt (x * x + y * y)) z.
-Proof. unfold gen_geodetic_step, gstep, Cg, ag, e2g. cbv zeta. f_equal; try ring; try (f_equal; ring). Qed.
+Proof. unfold gen_geodetic_step, gstep, Cg, ag, e2g. cbv zeta. unfold Rdiv. norm_args. f_equal; try ring. Qed.
 Lemma gen_first_is x y z : gen_geodetic_lat_1 x y z = gstep (atan2 z (sqrt (x * x + y * y))) (sqrt (x * x + y * y)) z.
-Proof. unfold gen_geodetic_lat_1, gstep, Cg, ag, e2g. cbv zeta. f_equal; try ring; try (f_equal; ring). Qed.
+Proof. unfold gen_geodetic_lat_1, gstep, Cg, ag, e2g. cbv zeta. unfold Rdiv. norm_args. f_equal; try ring. Qed.
 
 (* ---- C(phi) sin(phi): derivative and bounds ---- *)
 Lemma e2g_bounds : 669 / 100000 < e2g < 670 / 100000.
@@ -232,7 +232,7 @@ Section Normal.
     Sx / (ag * ag) = N / (ag * ag) * nx /\ Sy / (ag * ag) = N / (ag * ag) * ny /\ Sz / (ag * ag * (1 - e2g)) = N / (ag * ag) * nz.
   Proof.
     cbv zeta. unfold Sx, Sy, Sz, gen_subpoint_x, gen_subpoint_y, gen_subpoint_z, nx, ny, nz, Cg, ag, e2g. cbv zeta.
-    pose proof (sqrt_Cg_den_pos phi) as Hs. unfold e2g in Hs.
+    pose proof (sqrt_Cg_den_pos phi) as Hs. unfold e2g in Hs. revert Hs. unfold Rdiv. norm_args. intros Hs.
     repeat split; field; lra.
   Qed.
 
@@ -244,11 +244,11 @@ Section Normal.
     fold r in Sl, Cl.
     set (N := ag * Cg phi). set (c := cos phi). set (s := sin phi).
     assert (HSx : Sx = N * c * (x / r)).
-    { unfold Sx, gen_subpoint_x, N, Cg, ag, e2g, c. rewrite Cl. pose proof (sqrt_Cg_den_pos phi) as Hs. unfold e2g in Hs. field. lra. }
+    { unfold Sx, gen_subpoint_x, N, Cg, ag, e2g, c. rewrite Cl. pose proof (sqrt_Cg_den_pos phi) as Hs. unfold e2g in Hs. revert Hs. unfold Rdiv. norm_args. intros Hs. field. lra. }
     assert (HSy : Sy = N * c * (y / r)).
-    { unfold Sy, gen_subpoint_y, N, Cg, ag, e2g, c. rewrite Sl. pose proof (sqrt_Cg_den_pos phi) as Hs. unfold e2g in Hs. field. lra. }
+    { unfold Sy, gen_subpoint_y, N, Cg, ag, e2g, c. rewrite Sl. pose proof (sqrt_Cg_den_pos phi) as Hs. unfold e2g in Hs. revert Hs. unfold Rdiv. norm_args. intros Hs. field. lra. }
     assert (HSz : Sz = (1 - e2g) * N * s).
-    { unfold Sz, gen_subpoint_z, N, Cg, ag, e2g, s. cbv zeta. pose proof (sqrt_Cg_den_pos phi) as Hs. unfold e2g in Hs. field. lra. }
+    { unfold Sz, gen_subpoint_z, N, Cg, ag, e2g, s. cbv zeta. pose proof (sqrt_Cg_den_pos phi) as Hs. unfold e2g in Hs. revert Hs. unfold Rdiv. norm_args. intros Hs. field. lra. }
     assert (Hcs : c * c + s * s = 1).
     { unfold c, s. pose proof (sin2_cos2 phi) as S1. unfold Rsqr in S1. lra. }
     (* the squared distance to the normal, in the meridian plane *)
@@ -359,7 +359,8 @@ Lemma normal_gradient x y z lat :
 Proof.
   cbv zeta. pose proof (sqrt_Cg_den_pos lat) as Hs. split.
   - unfold Cg, ag. apply Rdiv_lt_0_compat; [|lra]. apply Rmult_lt_0_compat; [lra|]. apply Rdiv_lt_0_compat; lra.
-  - unfold gen_subpoint_x, gen_subpoint_y, gen_subpoint_z, Cg, ag, e2g in *. cbv zeta. repeat split; field; lra.
+  - unfold gen_subpoint_x, gen_subpoint_y, gen_subpoint_z, Cg, ag, e2g in *. cbv zeta. revert Hs. unfold Rdiv. norm_args. intros Hs.
+    repeat split; field; lra.
 Qed.
 (* b^2 = a^2 (1 - e2): the module's B *)
 Lemma b_squared : ag * ag * (1 - e2g) = (635675231414 / 100000000) ^ 2.
